@@ -8,3 +8,4 @@ import IppModel.Props.C19
 #print axioms Ipp.Props.C19.traversal
 #print axioms Ipp.Props.C19.traversal_ends
 #print axioms Ipp.Props.C19.traversal_exhausts
+#print axioms Ipp.Props.C19.history_general
